@@ -102,10 +102,18 @@ func (eng) Run(c core.CaseDesc, tier string) *core.CaseResult {
 	mode := modes[r.IntN(len(modes))]
 	origins := []string{"outside", "negotiation", "final", "eval"}
 	origin := origins[r.IntN(len(origins))]
-	landings := []string{"idle", "queue-running", "mid-negotiation", "mid-final", "during-eval", "dispose.flagged", "dispose.drained",
+	landings := []string{"idle", "queue-running", "mid-negotiation", "mid-final", "during-eval", "handler-parked-long", "eval-queued",
+		"handler-parked-long", "eval-queued", "dispose.flagged", "dispose.drained",
 		"dispose.locked", "dispose.subs-closed", "dispose.before-handlers"}
 	landing := landings[r.IntN(len(landings))]
 	withHandlers := r.IntN(3) > 0
+	if landing == "handler-parked-long" || landing == "eval-queued" {
+		withHandlers = true
+		origin = "outside"
+		if mode == "force" || mode == "parentctx" || mode == "amhelp" {
+			mode = "dispose"
+		}
+	}
 	if mode == "parentctx" || origin == "negotiation" || origin == "final" || landing == "mid-negotiation" || landing == "mid-final" || mode == "amhelp" {
 		withHandlers = true
 	}
@@ -140,6 +148,10 @@ func (eng) Run(c core.CaseDesc, tier string) *core.CaseResult {
 		// would (legitimately) cancel the state-based disposal mutations
 		HandlerTimeout: 20 * time.Second, QueueLimit: 60000})
 	m.DisposeTimeout = 50 * time.Millisecond
+	if landing == "handler-parked-long" {
+		// the graceful wait for the running queue must outlast the parked handler
+		m.DisposeTimeout = 3 * time.Second
+	}
 
 	am.VerifHookClear()
 	defer am.VerifHookClear()
@@ -203,7 +215,7 @@ func (eng) Run(c core.CaseDesc, tier string) *core.CaseResult {
 			if landing == "mid-negotiation" && hc.Name == "AEnter" {
 				park()
 			}
-			if landing == "mid-final" && hc.Name == "AState" {
+			if (landing == "mid-final" || landing == "handler-parked-long" || landing == "eval-queued") && hc.Name == "AState" {
 				park()
 			}
 			return true
@@ -319,6 +331,69 @@ func (eng) Run(c core.CaseDesc, tier string) *core.CaseResult {
 		}
 		go func() { time.Sleep(time.Millisecond); close(gate) }()
 		disposeNow()
+	case landing == "handler-parked-long" || landing == "eval-queued":
+		m.Remove(am.S{"A", "D"}, nil)
+		trigger()
+		select {
+		case <-reached:
+		case <-time.After(10 * time.Second):
+			res.Inconclusive = "landing point not reached"
+		}
+		evalDone := make(chan string, 1)
+		if landing == "eval-queued" {
+			go func() {
+				defer func() {
+					if rr := recover(); rr != nil {
+						evalDone <- fmt.Sprintf("PANIC %v", rr)
+					}
+				}()
+				ok := m.Eval("verif", func() {}, nil)
+				evalDone <- fmt.Sprintf("returned %v", ok)
+			}()
+			// let the eval get queued behind the parked handler
+			for i := 0; i < 200 && m.QueueLen() == 0; i++ {
+				time.Sleep(time.Millisecond)
+			}
+		}
+		flagged := make(chan struct{}, 1)
+		am.VerifHookSet("dispose.flagged", func() {
+			select {
+			case flagged <- struct{}{}:
+			default:
+			}
+		})
+		disposeNow()
+		select {
+		case <-flagged:
+		case <-time.After(5 * time.Second):
+		}
+		// Dispose is in progress and the handler is demonstrably still parked:
+		// the disposal must not complete underneath it
+		time.Sleep(400 * time.Millisecond)
+		res.Evals++
+		if landing == "handler-parked-long" && isClosed(m.WhenDisposed()) && hl.InHandler() {
+			res.Violate("C13/disposed-while-handler-running/"+mode, "WhenDisposed closed while a handler of the machine was still executing "+
+				"(parked inside AState, DisposeTimeout 3s not elapsed)", map[string]any{"mode": mode, "landing": landing, "seed": c.Seed})
+		}
+		close(gate)
+		if landing == "eval-queued" {
+			res.Evals++
+			select {
+			case msg := <-evalDone:
+				if strings.HasPrefix(msg, "PANIC") {
+					res.Violate("C13/eval-queued/panic", "an Eval queued before Dispose panicked in its caller: "+msg,
+						map[string]any{"mode": mode, "seed": c.Seed})
+				}
+			case <-time.After(5 * time.Second):
+				// EvalTimeout is 1s: by then the call has returned in any case
+				res.Violate("C13/eval-queued/blocked", "an Eval queued before Dispose did not return after the machine was disposed "+
+					"(still blocked 5s after the handler was released, EvalTimeout is 1s)", map[string]any{"mode": mode, "seed": c.Seed})
+				select {
+				case <-evalDone:
+				case <-time.After(5 * time.Second):
+				}
+			}
+		}
 	case landing == "during-eval":
 		inEval := make(chan struct{})
 		rel := make(chan struct{})
